@@ -76,6 +76,15 @@ PROPERTIES["C19"] = dict(
     assumptions=[],
 )
 
+PROPERTIES["C11"] = dict(
+    units=["handler", "authorizer", "authz"],
+    technique="Verus contracts on the extracted real functions (mode table refinement; ghost trace of summary events)",
+    level_text="Deductive proof (Verus/Z3).",
+    level_note="see evidence trusted_base",
+    design_ref="DESIGN.md section 3 C11",
+    assumptions=[],
+)
+
 NOT_APPLICABLE = {
     "C12": "secrecy over all outputs is a hyper-property (non-interference); no function contract expressible in Verus/Kani/CBMC here decides 'does not depend on the key' for format!/Display-built text, and a syntactic taint scan is a different family (DESIGN.md section 4)",
 }
